@@ -299,7 +299,9 @@ def process_unit(unit, tier_dir, mutate=False):
         rec["status"] = "error"
         rec["notes"].append("no postcondition/assertion obligation generated: contract dropped?")
         return rec
-    if unit.loop_contracts and not any("loop_invariant_step" in n for n in allnames):
+    # (a loop without a source-located head - `for (;;)` of rule R14 - gets its base/step/variant obligations as
+    #  unnamed assertions of <fn>_wrapped_for_contract_checking)
+    if unit.loop_contracts and not any("loop_invariant_step" in n or "_wrapped_for_contract_checking." in n for n in allnames):
         rec["status"] = "error"
         rec["notes"].append("loop contract silently dropped (no loop_invariant_step obligation)")
         return rec
